@@ -205,6 +205,7 @@ def _calc(which):
 
 
 _SENTINEL = object()
+SWEEP_ATTRS = ('xray', 'neutron', 'covalent_radius', 'crystal_structure', 'K_alpha', 'magnetic_ff')
 
 
 def run_event(name):
@@ -225,6 +226,21 @@ def run_event(name):
             return 'DEFAULT' if v is _SENTINEL else view(attr, v)
         if kind == 'calc':
             return norm(_calc(parts[1]))
+        if kind == 'sweep':
+            # the attribute read through EVERY element (and its first ion) in another order than the
+            # digest uses (descending Z, or odd Z before even Z); the value is keyed and sorted, so it
+            # is order independent unless what one atom serves depends on which atom was read before
+            attr, order = parts[1], parts[2]
+            els = list(table())
+            els = els[::-1] if order == 'desc' else els[1::2] + els[0::2]
+            out = {}
+            for e in els:
+                for obj, key in [(e, e.symbol)] + [(e.ion[q], '%s.ion[%d]' % (e.symbol, q)) for q in e.ions[:1]]:
+                    try:
+                        out[key] = view(attr, getattr(obj, attr))
+                    except Exception as exc:  # noqa
+                        out[key] = exc_value(exc)
+            return norm(out)
         if kind == 'import':
             __import__('periodictable.' + parts[1])
             return None
@@ -253,6 +269,7 @@ def alphabet(tier='quick'):
             for r in d['routes']:
                 ev.append('%s:%s:%s' % (kind, a, r))
     ev += ['calc:' + c for c in CALCS]
+    ev += ['sweep:%s:%s' % (a, o) for a in SWEEP_ATTRS for o in ('desc', 'oddeven')]
     ev += ['import:' + m for m in SUBMODULES]
     ev += ['init:' + m for m in INIT_MODULES] + ['init:emission']
     ev += ['reinit:' + m for m in INIT_MODULES]
